@@ -93,14 +93,24 @@ def run(ctx):
         "correspondence harness harness/e8/tofile_test.go (fault seams: dup3 onto the descriptor of f.out, SIGKILL from the "
         "FIN delegate / log callback; starvation seam: a never-dialled nsq.Conn registered in the real Consumer); "
         "strace(1) output order (syscall leg)",
-        "go2lean kind `skeleton` (statement skeletons of router/Close/Sync/Write/needsRotation/updateFile/exclusiveRename)",
+        "go2lean kind `skeleton` (statement skeletons of router/Close/Sync/Write/needsRotation/updateFile/sealTornTail/exclusiveRename)",
+        "file permissions (round 11): a file of mode 0222 cannot be opened for reading by a process without CAP_DAC_OVERRIDE "
+        "(as root the harness child that plays the tool runs as uid/gid 65534)",
     ]
     ctx.assumptions += [
         "writers: no other process renames, truncates or overwrites the tool's files while it runs; other processes may create "
         "new files (Ev.ext) and - plain append mode only - another O_APPEND writer (a second router of the same build: "
         "--filename-format without <TOPIC>) may append whole records with one write(2) each (Ev.extAppend; that is what fix F46 "
         "makes every router do; before F46 (/repo 85f4c48) two routers sharing a file tore each other's records: finding two-routers-one-file, fixed, replayed on every run)",
-        "fin_owns_line_this_tree needs none of the following (F46 85f4c48 + F47 efaf20c are committed, ties accept only their skeletons); "
+        "fin_owns_line_this_tree (F46 85f4c48 + F47 efaf20c are committed, ties accept only their skeletons; sealTornTail: the committed "
+        "skeleton or the one of the follow-up F47b, fixes/F47b_seal_unreadable_file.patch): on the committed shape no hypothesis (a file "
+        "the tool cannot read is a fatal exit before anything is written or FINished); ON THE F47b SHAPE the line-level torn-tail "
+        "guarantee (fin_owns_line_this_tree, fin_owns_line_fixed, restart_keeps_lines, pending_owns_line_fixed, shared_file_lines_fixed) "
+        "holds under the hypothesis ReadsOk: every existing file the tool appends to is readable by it (fin_owns_line_F47b_partial) - or is "
+        "empty / newline-terminated (fin_owns_line_unreadable_partial); refuted without: fin_owns_line_F47b_full_false (write-only torn file "
+        "\"A\" + message \"B\" -> \"AB\\n\", B FINished; replayed on the real router on every run: scenario unreadable-torn, reported as the "
+        "witnessed hypothesis boundary, not as a violation); the infix theorems (fin_implies_durable, ...) need no such hypothesis; "
+        "none of the following is needed for this tree; "
         "fin_owns_line_partial (tree BEFORE fix F47, plain append mode): every pre-existing file and every file another process "
         "drops is empty or ends in \"\\n\" (no writer died inside a record, no short write); unconditional with F47 "
         "(fin_owns_line_fixed) and in O_EXCL modes (fin_owns_line_excl); refuted without (fin_owns_line_full_false, "
@@ -164,7 +174,14 @@ def run(ctx):
             ops = open(os.path.join(out, "tofile.ops")).read().splitlines()
             impl = open(os.path.join(out, "tofile.impl")).read().splitlines()
             # the model runs with the committed shapes oneWrite = sealsTail = 1 (F46, F47), not with what the harness probed
-            probed = c19_lines.committed_shape_ops(os.path.join(out, "tofile.ops"), os.path.join(out, "tofile.model.ops"))
+            # round 11: sealReadWarns = the shape of the regenerated sealTornTail skeleton (committed F47 / F47b); the probe must agree
+            srw_seen = set()
+            probed = c19_lines.committed_shape_ops(os.path.join(out, "tofile.ops"), os.path.join(out, "tofile.model.ops"), srw_seen)
+            srw = c19_lines.seal_read_warns_from_gen()
+            if srw is None or srw_seen - {str(srw)}:
+                corr_broken.append("probe of sealTornTail on an unreadable file (real updateFile()): sealReadWarns = %s, regenerated skeleton: %s "
+                                   "(accepted: 0 = committed F47, 1 = F47b; probe = skeleton)" % (sorted(srw_seen), srw))
+            ctx.corr["seal_read_warns"] = {"probe": sorted(srw_seen), "regenerated_skeleton": srw}
             if probed - {("1", "1")}:
                 corr_broken.append("probe of router()/updateFile() on the real code: (one_write, seals_tail) = %s, expected (1, 1) "
                                    "(F46 85f4c48, F47 efaf20c)" % sorted(probed))
